@@ -177,3 +177,51 @@ func zzH_C08_dispatch() {
 	}
 	zzAssert(conn.closed, "the connection is closed after handling")
 }
+
+// service that lets other connections run before it reads (a handler that is scheduled late)
+type zzLateSvc struct{ zzDetSvc }
+
+func (s *zzLateSvc) Handle(ctx context.Context, conn net.Conn) error {
+	zzYield()
+	return zzDrain(s.id, s.bufSize, conn)
+}
+
+// C08/two-connections (also C03): two connections to one port with a detector service are
+// dispatched at the same time (one goroutine each, as the server does). Whatever the
+// interleaving at the scheduling points, each service instance invocation reads exactly
+// its own connection's bytes.
+func zzH_C08_two() {
+	zzLog = nil
+	a := zzBytes(2)
+	b := zzBytes(2)
+	zzAssume(zzAnd(a[0] == 'A', b[0] == 'A'))
+	origA, origB := append([]byte{}, a...), append([]byte{}, b...)
+	laddr := &net.TCPAddr{IP: net.IPv4(10, 0, 0, 1), Port: 8000}
+	svc := &zzLateSvc{zzDetSvc{zzPlainSvc{id: 7, bufSize: 4096}, []byte("A")}}
+	other := &zzDetSvc{zzPlainSvc{id: 8, bufSize: 4096}, []byte("Z")}
+	hc := &Honeytrap{ports: map[net.Addr][]*ServiceMap{laddr: {{Service: other, Name: "z"}, {Service: svc, Name: "a"}}}}
+	ca := &zzConn{data: a, first: 2, chunk: 2, local: laddr, remote: &net.TCPAddr{IP: net.IPv4(10, 9, 9, 1), Port: 40001}}
+	cb := &zzConn{data: b, first: 2, chunk: 2, local: laddr, remote: &net.TCPAddr{IP: net.IPv4(10, 9, 9, 2), Port: 40002}}
+	done := 0
+	go func() { hc.handle(ca); done++ }()
+	go func() { hc.handle(cb); done++ }()
+	zzQuiesce()
+	zzAssert(done == 2 && len(zzLog) == 2, "both connections are handled")
+	if len(zzLog) == 2 {
+		x, y := zzLog[0].data, zzLog[1].data
+		okXY := zzAnd(zzEq2(x, origA), zzEq2(y, origB))
+		okYX := zzAnd(zzEq2(x, origB), zzEq2(y, origA))
+		zzAssert(zzOr(okXY, okYX), "each handler reads exactly the bytes of its own connection, whatever other connections are dispatched meanwhile")
+	}
+}
+
+func zzEq2(a, b []byte) bool {
+	if len(a) != len(b) {
+		return false
+	}
+	eq := true
+	for i := range a {
+		eq = zzAnd(eq, a[i] == b[i])
+	}
+	return eq
+}
